@@ -30,6 +30,9 @@ add("C07", "Coq theorem: a lifetime in which every counted fake is installed bef
 add("C15", "Coq theorems over an A64 ISA fragment for ALL 64-bit fake addresses and all aligned func/trampoline pairs: movz/movk x3/br x9 builds exactly the fake in x9 and branches to it (only x9 written); movz x0/ret for the boolean; Linux entry: B lands exactly on the trampoline inside +-128 MiB and is refused outside (the pinned 0x1FFF_FFFF bound is refuted); macOS: B, or ADRP/ADD/BR x16 reaching exactly the trampoline for page differences within +-2^20 (only x16 written). Tied by running the unmodified arm64 sources (both cfg variants) on simulated memory vs the extracted model, executing the implementation's bytes with the extracted A64 semantics, and cross-checking the decoder with llvm-mc on every distinct word.",
     "Trusted: Coq kernel; hand-written A64 fragment (validated against llvm-mc-14); sim shim and source preparation. AArch64 code cannot be executed here (partial: no hardware).")
 
+add("C16", "Coq theorems over an A32/T32 ISA fragment for ALL 32-bit source and fake addresses in each of the three entry cases (A32; T32 = 0 mod 4; T32 = 2 mod 4) and both fake states: the word read by the literal load is the one holding the fake (Thumb bit included), BX interworks to it, only the scratch register is written; saved range = overwritten 12 bytes; r12 (repaired A32) is not callee-saved, r9 (pinned) and r7 (Thumb, KNOWN FINDING) are. Tied by running the unmodified patch_arm.rs on simulated memory vs the extracted model, executing the implementation's bytes with the extracted semantics, and llvm-mc on every distinct code unit.",
+    "Trusted: Coq kernel; hand-written A32/T32 fragment (validated against llvm-mc-14). ARM code cannot be executed here (partial: no hardware). Known finding: Thumb scratch register r7.")
+
 def main():
     props = [json.loads(l) for l in open(os.path.join(V, "properties.jsonl"))]
     checks = [C[p["id"]] for p in props if p["id"] in C]
